@@ -1,5 +1,6 @@
 import PyPhysim.Proofs.C08
 import PyPhysim.Generated.C08Effects
+import PyPhysim.Proofs.CacheEffects
 /-!
 # C08 — the effect of the model's `step` on the state fields, as a finite table
 
